@@ -133,12 +133,12 @@ def check_addsub(ctx, kind, c, pdesc, durs):
         want = impl.duration_len(ddesc)
         _, _, sec, _ = impl.alpha_duration(got)
         if sec != want and (exact or abs(sec - want) > TOL):
-            ctx.violation("addsub_length", sig, case, {"seconds": str(want)}, {"got": str(got), "seconds": str(sec)})
+            ctx.violation("addsub_length", sig, case, {"seconds": str(want)}, {"got": impl.sstr(got), "seconds": str(sec)})
         if exact and not (got == d):
-            ctx.violation("addsub_eq", sig, case, "(p + d) - p == d", str(got))
+            ctx.violation("addsub_eq", sig, case, "(p + d) - p == d", impl.sstr(got))
         why = _shape_ok(got)
         if why:
-            ctx.violation("shape", dict(sig, why=why), case, "days/h/m/s only, one sign", str(got))
+            ctx.violation("shape", dict(sig, why=why), case, "days/h/m/s only, one sign", impl.sstr(got))
 
 
 def _far_entries(kind, y):
